@@ -23,6 +23,8 @@ def scripts(name):
         'partialout': [[('cmd', b'pa'), ('cmd', b'cb')]],
         'partiallist': [[('list', [b'la', b'pb', b'lc'])], [('cmd', b'cc')]],
         'firstpartial': [[('list', [b'pa', b'lb'])]],
+        'art': [[('art', b'song')]],
+        'fail': [[('cmd', b'fa'), ('cmd', b'cb')]],
         'typed0': [[('typed', [])]],
         'typed0after': [[('cmd', b'cx'), ('typed', [])]],
         'typed2': [[('typed', [b'ca', b'cb'])], [('cmd', b'cx')]],
@@ -55,6 +57,16 @@ def instances_for(prop, tier, seed):
         # a reply that takes very long (a minute passes while it is outstanding), then the next request
         add(script='two', prefix='inflight', k=k, budget={'longtick': 1})
         add(script='twocallers', prefix='inflight', k=k - 1, budget={'longtick': 1, 'tick': 1})
+        # ... also when the first line(s) of the reply have already arrived
+        add(script='two', prefix='inflight_partial', k=k - 1, budget={'longtick': 1})
+        add(script='listok', prefix='inflight_partial2', k=k - 1, budget={'longtick': 1})
+        # an error reply cut at every byte position (the rest arrives in the next read)
+        add(script='fail', prefix='inflight', k=3, budget={'cutat': 1})
+        # the user has dropped the event receiver
+        add(script='two', k=k, budget={'dropevents': 1, 'change': 1})
+        add(script='one', prefix='inflight', k=k, budget={'dropevents': 1, 'change': 2, 'tick': 1})
+        # the server refuses an idle with an error response
+        add(script='two', prefix='after_reply', k=k, budget={'faults': ['idleack'], 'tick': 1})
         # cancellation
         add(script='twocallers', k=k, budget={'cancel': 1})
         add(script='threecallers', k=k - 1, budget={'cancel': 1}, prefix='inflight')
@@ -85,6 +97,9 @@ def instances_for(prop, tier, seed):
         add(script='list', prefix='inflight_partial', k=k, budget={'faults': ['eof']})
         add(script='list', prefix='inflight_partial2', k=k, budget={'faults': ['eof']})
         add(script='listok', prefix='inflight_partial2', k=k, budget={'faults': ['eof']})
+        add(script='one', k=k + 1, budget={'change': 1, 'faults': ['eof']})
+        add(script='one', prefix='after_reply', k=k, budget={'faults': ['idleack'], 'tick': 1})
+        add(script='art', k=k + 1, budget={'faults': ['eof']}, step_deliver=True)
         add(script='one', k=k, budget={'dropclient': 1})
         add(script='none', k=k, budget={'dropclient': 1, 'change': 1})
         add(script='one', prefix='after_reply', k=k, budget={'dropclient': 1, 'tick': 1})
@@ -107,8 +122,14 @@ def instances_for(prop, tier, seed):
     return out
 
 # ---------------------------------------------------------------------------- running a scenario
+ART_PICTURE = bytes([0x41 + (i % 5) if i % 3 else 10 for i in range(5)])
 def run_scenario(I, P, pl):
     S = Session(I, P, scripts(pl['script']), deliver='lines')
+    if pl['script'] == 'art':
+        S.server.art_requests = []
+        S.server.custom = art_server(ART_PICTURE, 2, True, None, None)
+    if pl.get('step_deliver'):
+        S.step_deliver = True
     r = S.connect()
     if r.variant != 'Ok':
         raise InternalError('connect failed in the scenario prefix')
@@ -148,7 +169,7 @@ def observe(S):
     obs = {'changed_consumed': consumed.count(b'changed: ') if not consumed.endswith(b'changed: ') else consumed.count(b'changed: '), 'steps': list(S.steps), 'lines': [l.decode('latin1') for l in S.server.lines], 'violations': list(S.server.violations),
            'changed_written': [n.decode() for n in S.server.changed_written], 'events': [], 'callers': [], 'flags': sorted(S.flags),
            'free_steps': list(S.steps[getattr(S, 'free_from', 0):getattr(S, 'free_to', len(S.steps))]),
-           'loop_done': S.loop_done, 'server_idle': S.server.idle, 'transport_dropped': S.t.dropped, 'multi_changed': S.server.multi_changed, 'noidle_inside_idle_reply': S.server.noidle_inside_idle_reply}
+           'loop_done': S.loop_done, 'server_idle': S.server.idle, 'idle_acked': S.server.idle_acked, 'transport_dropped': S.t.dropped, 'multi_changed': S.server.multi_changed, 'noidle_inside_idle_reply': S.server.noidle_inside_idle_reply}
     for e in S.events:
         if e[0] == 'change':
             obs['events'].append('change:' + e[1].decode())
@@ -208,10 +229,12 @@ def judge_c01(obs):
     for ci, c in enumerate(obs['callers']):
         order = [r for r, _ in c['results']] + c['cancelled']
         pos = -1
-        for r, _ in c['results']:
+        for r, o in c['results']:
             first = r.partition(':')[2].split(',')[0]
             if first == '':
                 continue            # an empty typed list sends nothing
+            if o[0] in ('closed', 'protocol'):
+                continue            # failed with the connection: need not have reached the server
             if first in reqlines[pos + 1:]:
                 pos = reqlines.index(first, pos + 1)
             else:
@@ -234,6 +257,8 @@ def judge_c13(obs):
     return None
 
 def judge_c04(obs):
+    if 'dropevents' in obs['steps']:
+        return None             # nobody listens any more: nothing to deliver
     got = [e[7:] for e in obs['events'] if e.startswith('change:')]
     want = obs['changed_written'][:obs.get('changed_consumed', len(obs['changed_written']))]
     if got != want:
@@ -250,7 +275,7 @@ def judge_c05(obs):
         # after the re-idle delay the client must be idling again
         if not obs['server_idle']:
             return 'no request pending and the re-idle delay expired, but the server is not in idle (last lines %s)' % lines[-3:]
-    if not obs['loop_done'] and any(c['pending'] for c in obs['callers']) and not obs['server_idle'] and not any(f.startswith('fault') for f in obs['flags']):
+    if not obs['loop_done'] and any(c['pending'] for c in obs['callers']) and not obs['server_idle'] and not any(f in ('fault:eof', 'fault:read_error', 'fault:write_error', 'fault:garbage') for f in obs['flags']):
         # quiescence: everything the server produced was delivered, every timer expired, every task polled - and a request is still
         # queued although the server is neither idling (waiting for noidle) nor holding an unanswered request: the session is stalled
         return 'the session is stalled: request %s is still pending at quiescence, the server is not idling and has answered everything it received (last lines %s)' % (
@@ -287,6 +312,8 @@ def judge_c08(obs):
     else:
         if any(f in ('fault:eof', 'fault:read_error', 'fault:garbage') for f in obs['flags']):
             return 'the run loop is still alive after the transport failed'
+        if obs.get('idle_acked'):
+            return 'the server refused idle with an error response but the connection task is still alive'
     if 'dropclient' in obs['steps'] and obs['is_closed'] is None and not obs['transport_dropped'] and not any(c['pending'] for c in obs['callers']):
         return 'last client handle dropped but the transport is not released'
     # a failure that is not a clean close is surfaced: to the in-flight caller or as closing event
@@ -537,6 +564,7 @@ def native_obs(out, steps):
         elif k == 'changed': obs['changed_written'].append(v)
         elif k == 'event': obs['events'].append(v)
         elif k == 'server_idle': obs['server_idle'] = v == 'true'
+        elif k == 'idle_acked': obs['idle_acked'] = v == 'true'
         elif k == 'multi_changed': obs['multi_changed'] = v == 'true'
         elif k == 'transport_dropped': obs['transport_dropped'] = v == 'true'
         elif k == 'is_closed': obs['is_closed'] = None if v == 'none' else v == 'true'
@@ -624,7 +652,7 @@ def replay_for(prop, rec):
     callers = '|'.join(';'.join(req_txt(r) for r in c) for c in scripts(pl['script']))
     last = None
     for k in range(tries):
-        out = run_replay(['client', callers, '-', 'OK', '-'] + list(inp['steps']))
+        out = run_replay(['client', callers, '-', 'OK', '5,2,0,0,0,0' if pl['script'] == 'art' else '-'] + list(inp['steps']))
         if 'panic' in out:
             return True, 'native run panics: ' + unhex(out['panic'][0]).decode('utf-8', 'replace')[:100]
         obs = native_obs(out, inp['steps'])
